@@ -259,6 +259,8 @@ func ruleR06R07(c *Ctx) {
 							c.r.ok("R06", key, m.pos(x.Pos()), "under the tag fact "+ki.Name, props...)
 						} else if known != nil {
 							c.r.bad("R06", key, m.pos(x.Pos()), fmt.Sprintf("reference is known to be tagged %s here but is read through the layout of %s", m.KindName[*known], ki.Name), props...)
+						} else if why := c.kindByElimination(u, fs, psel.X, ki.Value); why != "" {
+							c.r.ok("R06", key, m.pos(x.Pos()), why, props...)
 						} else {
 							c.r.bad("R06", key, m.pos(x.Pos()), "reference is read through the layout "+target.Obj().Name()+" without a dominating test that its tag is "+ki.Name, props...)
 						}
@@ -946,4 +948,76 @@ func endsInErrorReturn(info *types.Info, body []ast.Stmt) bool {
 	}
 	errT := types.Universe.Lookup("error").Type()
 	return types.AssignableTo(tv.Type, errT) && types.Implements(tv.Type, errT.Underlying().(*types.Interface))
+}
+
+// kindByElimination: every kind other than want is excluded for ref – by the tests on this path
+// and, when ref is a by-value reference parameter of a declared helper, by what each call site
+// knows about the argument (a helper for "node4 or node16" called under `case nodeKind4,
+// nodeKind16:` that has dealt with node4 itself).
+func (c *Ctx) kindByElimination(u *FuncUnit, fs *FactSet, ref ast.Expr, want int64) string {
+	m := c.m
+	info := m.Info
+	all := map[int64]bool{m.LeafKind.Value: true}
+	for _, k := range m.Kinds {
+		all[k.Value] = true
+	}
+	_, excl := fs.tagOf(ref)
+	remaining := func(ex map[int64]bool) []int64 {
+		var out []int64
+		for k := range all {
+			if !ex[k] {
+				out = append(out, k)
+			}
+		}
+		return out
+	}
+	if r := remaining(excl); len(r) == 1 && r[0] == want {
+		return "every other kind is excluded on this path"
+	}
+	id, ok := ast.Unparen(ref).(*ast.Ident)
+	if !ok || u.Lit != nil || u.Decl == nil {
+		return ""
+	}
+	pi := m.paramIndex(u, id)
+	if pi < 0 || assignedAnywhere(info, u.Body, identVar(info, id)) {
+		return ""
+	}
+	sites := c.callSitesOf(u)
+	if len(sites) == 0 {
+		return ""
+	}
+	for _, s := range sites {
+		a := argFor(s.call, pi)
+		if a == nil {
+			return ""
+		}
+		var at *FactSet
+		c.e.flow(s.u).walk(func(n ast.Node, f *FactSet, stmt ast.Node, b *cfg.Block) {
+			if n == ast.Node(s.call) && at == nil {
+				at = f
+			}
+		})
+		if at == nil {
+			return ""
+		}
+		siteEx := map[int64]bool{}
+		known, ex := at.tagOf(a)
+		for k := range ex {
+			siteEx[k] = true
+		}
+		if known != nil {
+			for k := range all {
+				if k != *known {
+					siteEx[k] = true
+				}
+			}
+		}
+		for k := range excl {
+			siteEx[k] = true
+		}
+		if r := remaining(siteEx); len(r) != 1 || r[0] != want {
+			return ""
+		}
+	}
+	return fmt.Sprintf("every other kind is excluded: by the tests of %s on this path and by what each of its %d call sites knows about the argument", u.Name, len(sites))
 }
